@@ -164,4 +164,4 @@ def run_r12(F, rep, tier):
                 rep.bad("C09-R12", "row-increment:%s:unguarded" % name,
                         "%s advances the row without any test of the index against the grapheme count: consuming the sentinel new-line starts a row the input does not have" % name,
                         "src/syntax/src/lib.rs (%s)" % name)
-    rep.floor("C09-R12", "row increments in ParseString", n_sites, 2)
+    rep.floor("C09-R12", "row increments in ParseString", n_sites, 1)   # the two consume methods may share one bookkeeping helper
